@@ -475,7 +475,7 @@ namespace cgi {
 			
 			if(body->role!=fcgi_responder) {
 				header_.type=fcgi_end_request;
-				body_.assign(0,8);
+				body_.assign(sizeof(fcgi_end_request_body),0);
 				fcgi_end_request_body *body=reinterpret_cast<fcgi_end_request_body*>(&body_.front());
 				body->protocol_status=fcgi_unknown_role;
 				body->to_net();
